@@ -104,15 +104,43 @@ def _operators(prog, rep):
 
 
 # ------------------------------------------------------------------------------------------------ R11.2
+_PROG = {}
+
+
+def _error_factory(name, scope_nodes) -> bool:
+    """``name`` is a function (nested in the current function, or module-level in the package) whose every return
+    is a freshly constructed size error."""
+    prog = _PROG.get("prog")
+    cands = [n for sc in scope_nodes for n in ast.walk(sc) if isinstance(n, ast.FunctionDef) and n.name == name]
+    if not cands and prog is not None:
+        cands = [f.node for f in prog.find_func(name) if f.cls is None and f.parent is None]
+    for fn in cands[:1]:
+        rets = [r.value for r in ast.walk(fn) if isinstance(r, ast.Return)]
+        return bool(rets) and all(isinstance(r, ast.Call) and dotted(r.func) in SIZE_ERRORS for r in rets)
+    return False
+
+
 def _raises_size_error(stmts):
     for st in stmts:
         for n in ast.walk(st):
-            if isinstance(n, ast.Raise) and isinstance(n.exc, ast.Call) and dotted(n.exc.func) in SIZE_ERRORS:
-                return True
+            if isinstance(n, ast.Raise) and isinstance(n.exc, ast.Call):
+                if dotted(n.exc.func) in SIZE_ERRORS:
+                    return True
+                # raise make_error(...) with an error factory (local closure or module helper)
+                if isinstance(n.exc.func, ast.Name):
+                    scope = []
+                    p = getattr(n, "_parent", None)
+                    while p is not None:
+                        if isinstance(p, (ast.FunctionDef, ast.AsyncFunctionDef)):
+                            scope.append(p)
+                        p = getattr(p, "_parent", None)
+                    if _error_factory(n.exc.func.id, scope):
+                        return True
     return False
 
 
 def _truncation(prog, rep):
+    _PROG["prog"] = prog
     # (a) operand-kind ladders of the four pairing helpers: each arm that takes elements from a sized operand is
     #     preceded by a raising size test; the default raises
     for q in ("optyx.core.vectors:_vector_binary_op", "optyx.core.vectors:_vector_constraint", "optyx.core.matrices:_matrix_binary_op", "optyx.core.matrices:_matrix_constraint"):
